@@ -121,7 +121,10 @@ let quote (s : string) : string =
                       (List.init (String.length s) (String.get s)))
 let flipcase s = String.map (fun c -> if c >= 'a' && c <= 'z' then upper c else lower c) s
 let invalid_patterns = [| "("; ")"; "[a"; "a["; "*a"; "+"; "?x"; "a**"; "\\"; "(?z)a"; "a{2,1}"; "[z-a]"; "\\8"; "\\q";
-                          "(?P<n>"; "[]"; "x(?i"; "ab(" |]
+                          "(?P<n>"; "[]"; "x(?i"; "ab(";
+                          (* a group closed before it is opened: invalid on its own, but VALID once something wraps the pattern in
+                             parentheses - the case-insensitive flag must be prepended, not wrapped around (seeded change C15-8) *)
+                          ")("; "alpha)|(beta"; "a)(b"; ")|("; "x)y(z" |]
 let alnum c = (c >= 'a' && c <= 'z') || (c >= 'A' && c <= 'Z') || (c >= '0' && c <= '9')
 
 let rpattern r (texts : string list) : string * string =
@@ -331,6 +334,13 @@ let rsecret_value r : gval =
   | 2 -> VList [ VStr (bs (rsecret_text r)); VStr (bs (rsecret_text r)) ]
   | _ -> VStr (bs (rsecret_text r))
 
+(* a long cell (4-6 KiB of filler) with the secret at its very end, or a long list whose last element holds it: a scan that
+   looks only at the first few KiB of a cell misses it (seeded change C15-9).  Rare: the list-based model is slow on long texts. *)
+let rlong_secret_value r : gval =
+  let filler n = String.concat " " (List.init (n / 6) (fun i -> Printf.sprintf "w%04d" (i mod 9973))) in
+  if rbool r then VStr (bs (filler (4150 + rint r 200) ^ " " ^ rsecret_text r))
+  else VList (List.init 600 (fun i -> VStr (bs (Printf.sprintf "item%03d" i))) @ [ VStr (bs (rsecret_text r)) ])
+
 let rsecret_dump r : dumpResult =
   let d = rdump r in
   (* in every second table one secret value is stored in several cells (other rows, other columns): each occurrence must be
@@ -341,7 +351,7 @@ let rsecret_dump r : dumpResult =
             if rint r 3 = 0 then (k, v) else
               match dup with
               | Some dv when rint r 3 = 0 -> (k, dv)
-              | _ -> (k, rsecret_value r)) row) t.t_rows })
+              | _ -> (k, if rint r 5000 = 0 then rlong_secret_value r else rsecret_value r)) row) t.t_rows })
       db.d_tables }) d
 
 let rdetset r : int list =
@@ -371,6 +381,17 @@ let case_scan r =
     let s = c_list (List.map c_finding (expected_scan show dets d)) in
     let m = c_res (fun l -> c_list (List.map c_finding l)) (scanDumpResult show dets d) in
     emit ~fn:"ScanDumpResult" ~tag:(if s = "[]" then "fake_none" else "fake") ~s ~m [ dsarg; enc_dump d ]
+
+(* a one-row table with one long cell holding the secret at its end: a few of these in every run (seeded change C15-9) *)
+let case_scan_long r =
+  let ds = rdetset r in
+  let dets = List.map fake_detector ds in
+  let dsarg = if ds = [] then "-" else String.concat "," (List.map string_of_int ds) in
+  let t = { t_name = bs "long"; t_columns = [ bs "id"; bs "body" ];
+            t_rows = [ [ (bs "id", VI32 (zi 1)); (bs "body", rlong_secret_value r) ] ] } in
+  let s = c_list (List.map c_finding (table_findings show dets (bs "db") t)) in
+  let m = c_res (fun l -> c_list (List.map c_finding l)) (scanTable show dets (bs "db") t) in
+  emit ~fn:"scanTable" ~tag:"fake_long_cell" ~s ~m [ dsarg; hname (bs "db"); enc_table t ]
 
 (* ------------------------------------------------------------------ secret scan, real detectors *)
 (* structurally valid random tokens of the formats of secrets_test.go, generated here (never stored) *)
@@ -429,7 +450,7 @@ let gen_case r k =
   | 12 -> case_rowkeys r
   | 13 | 14 | 15 -> case_prefilter r
   | 16 | 17 | 18 -> case_scan r
-  | _ -> if k mod 100 = 19 then case_scan_real r else case_scan r
+  | _ -> if k mod 100 = 19 then case_scan_real r else if k mod 4000 = 39 then case_scan_long r else case_scan r
 
 let gen seed n = for k = 0 to n - 1 do gen_case (rng_for seed k) k done
 let () = main gen
